@@ -152,6 +152,61 @@ for i in range(nbase):
                     compare("C04:vector-vs-scalar", "entry %d of %s vs %s" % (j_w, t6, t7), [f[0] for f in f7],
                             [f[j_w] for f in f6], scales_for(seq, rho, wj), tol=1e-13)
 
+# ---------------------------------------------------------------- Formula objects with their own density
+stats["formula_objects"] = 0
+
+
+def callf(fobj, how, dens, natd, wkind, wvals, tag):
+    res = run_call_formula(0, fobj, dens, natd, wkind, False, wvals)
+    kwtxt = "".join([", density=%r" % dens if dens is not None else "", ", natural_density=%r" % natd if natd is not None else "",
+                     "" if not wkind else ", %s=%r" % ("wavelength" if wkind == 1 else "energy", wvals[0])])
+    txt = "neutron_scattering(%s%s)  [own density %r]" % (how, kwtxt, fobj.density)
+    cases.append(callf_term(0, fobj, dens, natd, wkind, False, wvals, res))
+    meta.append(dict(call=txt, tag=tag))
+    flat = flatten_result(res, False, 1) if isinstance(res, tuple) and res[0] is not None and not isinstance(res, BaseException) else None
+    return res, flat, txt
+
+
+for i in range(max(20, nbase // 4)):
+    fobj, how = formula_object(rng, pool)
+    own = fobj.density
+    if not own:
+        continue
+    atoms_f = flat_atoms(fobj.structure)
+    lam = pool.wavelength(atoms_f)
+    r0, f0, t0 = callf(fobj, how, None, None, 1, [lam], "formula-object base")
+    stats["formula_objects"] += 1
+    if f0 is None:
+        fail("C04:formula-object-base", "%s did not return numbers: %r" % (t0, r0), call=t0)
+        continue
+    a0 = [f[0] for f in f0]
+    sc = doc_equations(count_struct(fobj.structure), own, lam)[1]
+    # density = k * (the formula's own density), given as a keyword on the call
+    k = rng.choice([2.0, 0.5, 10.0, round(rng.uniform(0.05, 20), 3)])
+    r1, f1, t1 = callf(fobj, how, k * own, None, 1, [lam], "formula-object density=k*own")
+    if f1 is None:
+        fail("C04:formula-object-density-keyword", "%s did not return numbers: %r" % (t1, r1), call=t1)
+    else:
+        compare("C04:formula-object-density-keyword", "%s vs the same object without the keyword" % t1, a0, [f[0] for f in f1], sc,
+                [k] * 6 + [1 / k])
+    # natural_density= on the object: as density = natural_density / natural mass ratio
+    nd = round(rng.uniform(0.5, 20), 3)
+    r2, f2, t2 = callf(fobj, how, None, nd, 1, [lam], "formula-object natural_density=")
+    kk = nd / natural_ratio_of(count_struct(fobj.structure)) / own
+    if f2 is None:
+        fail("C04:formula-object-natural-density-keyword", "%s did not return numbers: %r" % (t2, r2), call=t2)
+    else:
+        compare("C04:formula-object-natural-density-keyword", "%s vs the same object without the keyword" % t2, a0,
+                [f[0] for f in f2], sc, [kk] * 6 + [1 / kk])
+    # energy= vs wavelength= on the object, with a density keyword
+    en = float(EF_DOC / lam ** 2)
+    r3, f3, t3 = callf(fobj, how, k * own, None, 2, [en], "formula-object energy=")
+    lam3 = float(nsf.neutron_wavelength(en))
+    r4, f4, t4 = callf(fobj, how, k * own, None, 1, [lam3], "formula-object wavelength=")
+    if f3 is not None and f4 is not None:
+        compare("C04:formula-object-energy-vs-wavelength", "%s vs %s" % (t3, t4), [f[0] for f in f3], [f[0] for f in f4],
+                doc_equations(count_struct(fobj.structure), k * own, lam3)[1])
+
 # ---------------------------------------------------------------- conversions
 def conv(kind, x):
     fn = [nsf.neutron_wavelength, nsf.neutron_energy, nsf.neutron_wavelength_from_velocity][kind]
